@@ -42,7 +42,9 @@ func c04Scripts(long bool) func(g *Gen, id string, kind byte) []Action {
 				return []Action{{Op: "next"}}
 			}
 		}
-		switch rng.Intn(8) {
+		switch rng.Intn(9) {
+		case 8:
+			return []Action{{Op: rng.Pick([]string{"cancelreq", "introspect"})}, {Op: "next"}}
 		case 0:
 			return []Action{{Op: "obs"}} // returns without calling Next
 		case 1:
